@@ -58,7 +58,7 @@ def parseOverlap (s : String) : M Overlap :=
 
 /-- `force = force.lower()`; `'none'`, `'taper'`, anything starting with `'extrap'`, else invalid -/
 def parseForce (s : String) : M Force :=
-  let t := String.mk (s.toList.map Char.toLower)
+  let t := String.ofList (s.toList.map Char.toLower)
   if t == "none" then pure .none
   else if t == "taper" then pure .taper
   else if t.startsWith "extrap" then pure .extrap
@@ -106,7 +106,7 @@ def parseCall (j : Json) : M (Call Rat × Bool) := do
         | some v => (asNat v).map some
         | none => pure none
       pure (.newEmpirical k (← fNat j "x") (← fNat j "y") (← optRats j "xconv") (← optRats j "yconv")
-              (← fBool j "keep_neg") md, false)
+              (← fBool j "keep_neg") md (match fOpt j "fill0" with | some (.bool b) => b | _ => false), false)
   | "new_analytic" => do
       let k ← fStr j "kind" >>= parseKind
       let (l, _) ← getField j "leaf" >>= parseLeaf
@@ -172,9 +172,13 @@ def jNpErr (g : NpErr) : Json :=
 def jMeta (m : Meta) : Json :=
   Json.mkObj [("warnings", jDict m.warnings), ("entries", jDict m.entries)]
 
+/-- trees whose numbers the driver does not report: a black body (Planck's law is C16's subject) or a
+quotient of spectra (where the divisor is close to 0 the quotient amplifies the rounding of the
+wavelength conversion without bound; quotients are C02's subject) -/
 def HTree.hasBB : HTree Rat → Bool
   | .tab _ | .ana _ => false
   | .bb _ => true
+  | .bin .div _ _ => true
   | .bin _ l r => HTree.hasBB l || HTree.hasBB r
   | .scale m _ => HTree.hasBB m
   | .redshift _ m => HTree.hasBB m
